@@ -246,6 +246,10 @@ class C18(Prop):
             if obs["again"] != out:
                 if all(any((d or 0) > 0 for d in dr) for dr in obs["draws"]):
                     return ("not_reproducible", "same seed, different valuations")
+            if len(obs["draws"]) < len(M):      # one draw per agent (an agent that ranks nothing draws an empty vector): fewer draws mean agents that were never reached
+                for row, o in list(zip(M, out))[len(obs["draws"]):]:
+                    vals = [x for x in o if x is not None]
+                    if vals and abs(sum(vals) - 1) > 1e-9: return ("not_normalised", "an agent with ranked alternatives was never given valuations: %r -> %r" % (row, o))
             for row, o, dr in zip(M, out, obs["draws"]):
                 vals = [x for x in o if x is not None]
                 pos = any(d > 0 for d in dr)
